@@ -134,6 +134,10 @@ impl WriteExt for Writer<&mut BytesMut> {
 
 impl<W: WriteExt + ?Sized> WriteExt for IoBufWriter<W> {
     fn reserve_with(&mut self, additional: usize) -> io::Result<&mut [MaybeUninit<u8>]> {
+        // The region is reserved (and later committed) directly in the inner writer, while bytes
+        // written through `io::Write` may still sit in the `BufWriter`'s own buffer: hand them
+        // over first, or the reserved bytes would overtake them.
+        io::Write::flush(self)?;
         self.get_mut().reserve_with(additional)
     }
 
